@@ -200,7 +200,7 @@ def check_builder(c: Dict[str, Any]) -> Tuple[List[Any], Dict[str, Any]]:
             want_body = None
         elif b == 'static':
             from vf.props import c07
-            path, data = c07.static_file(c['size'], c['salt'])
+            path, data = c07.static_file(c['size'], c['salt'], c.get('ext', 'bin'))
             raw = bytes(HttpWebServerBasePlugin.serve_static_file(c07.static_dir() + path, c['mcl']))
             want_body = data
         else:
@@ -309,6 +309,12 @@ def builder_cases(draw: Any) -> Dict[str, Any]:
     elif b == 'okResponse':
         mcl = draw(st.sampled_from([0, 1, 19, 20, 21, 100, 10 ** 6]))
         body = draw(st.one_of(st.none(), G.bodies(300), st.binary(min_size=max(0, mcl - 1) if mcl < 400 else 0, max_size=(mcl + 1) if mcl < 400 else 30)))
+        # the builder is told the media type by its callers (static files, plugins): part of its argument space
+        ctype = draw(st.sampled_from([None, b'text/html', b'text/plain; charset=utf-8', b'application/json', b'image/png', b'image/jpeg',
+                                      b'application/zip', b'application/gzip', b'video/mp4', b'audio/mpeg', b'application/octet-stream',
+                                      b'font/woff2', b'application/pdf']))
+        if ctype is not None:
+            hs = hs + [[G._recase(draw, 'Content-Type').encode(), ctype, 0]]
         c.update(headers=hs, body=body, compress=draw(st.booleans()), mcl=mcl, conn_close=draw(st.booleans()))
     elif b == 'redirect':
         c.update(perm=draw(st.booleans()), location=draw(st.sampled_from([b'/', b'http://example.test/x?y=1', b'https://a.test:8443/p%20q'])))
@@ -318,7 +324,8 @@ def builder_cases(draw: Any) -> Dict[str, Any]:
     elif b == 'ws_handshake':
         c['key'] = draw(st.binary(min_size=16, max_size=16).map(__import__('base64').b64encode))
     elif b == 'static':
-        c.update(size=draw(st.sampled_from([0, 1, 19, 20, 21, 300, 70000])), salt=draw(st.integers(0, 3)), mcl=draw(st.sampled_from([0, 20, 10 ** 6])))
+        c.update(size=draw(st.sampled_from([0, 1, 19, 20, 21, 300, 70000])), salt=draw(st.integers(0, 3)), mcl=draw(st.sampled_from([0, 20, 10 ** 6])),
+                 ext=draw(st.sampled_from(['bin', 'txt', 'html', 'js', 'css', 'json', 'png', 'jpg', 'gif', 'zip', 'gz', 'mp4', 'pdf', 'woff2', 'svg', 'unknownext'])))
     return c
 
 
